@@ -164,6 +164,9 @@ func c08Corpus(family string) [][]byte {
 		for i, s := range seqs {
 			add(ref.AV1Stream(s, i%3 == 1))
 		}
+		for _, m := range []int{16, 40, 129, 255, 1200} { // a fragmented non-last OBU whose last piece has MTU-2 bytes
+			add(ref.AV1Stream([]ref.OBU{o(6, 2*m-4), o(6, 3)}, false))
+		}
 		add([]byte{0x80})                   // forbidden bit
 		add([]byte{0xB2, 0x01, 0x00})       // forbidden bit, rest valid
 		add([]byte{0x32, 0x80})             // truncated LEB128
